@@ -26,6 +26,13 @@ def cases_for(tier, rng, structure=False):
                                                               srv.dnode([rn, "sub"], 1500000002), srv.fnode([rn, "sub", "b.bin"], 1, cid="rs%d" % len(rn), mtime=1500000003)],
                       "dir": [rn], "ps3": False, "titleId": ["", ""], "decode": True, "osfs": False, "noCanon": False, "ops": []})
     add("deep8", isotrees.deep_tree(rng, 7))
+    # more member files than the process may hold open at once (RLIMIT_NOFILE; 1024 is a common limit, games have thousands of files)
+    many = isotrees.wide_tree(rng, 260 if not full else 1500, 4)
+    for n in many:
+        if n["kind"] == "file" and n["size"] == [0, 0]:
+            n.update(srv.fnode(n["p"], 7, cid="nz_" + n["p"][-1], mtime=n["mtime"]))
+    add("manyfiles-lowfd", many)
+    cases[-1]["nofile"] = 48
     add("wide40", isotrees.wide_tree(rng, 40, 3))
     add("wide300", isotrees.wide_tree(rng, 300 if full else 120, 10))
     add("emptydirs", [srv.dnode(["d"], 1500000000)] + [srv.dnode(["d", "e%d" % i], 1500000001 + i) for i in range(5)]
